@@ -753,6 +753,10 @@ pub fn generate(repo: &Path) -> Res<String> {
     for r in &sites {
         writeln!(s, "  | .{} => \"{}::{}\"", ctor(r), r.owner, r.func).unwrap();
     }
+    s.push_str("\n/-- the type whose method the site is (`SendStream`, `RecvStream`, `Connection`, `Connecting`) -/\ndef Reg.owner : Reg → String\n");
+    for r in &sites {
+        writeln!(s, "  | .{} => \"{}\"", ctor(r), r.owner).unwrap();
+    }
     s.push_str("\ndef Reg.file : Reg → String\n");
     for r in &sites {
         writeln!(s, "  | .{} => \"{}\"", ctor(r), r.file).unwrap();
